@@ -754,6 +754,10 @@ var callSiteRe = regexp.MustCompile(`^(.*\.call\..*)\.(\d+)\.(requires\..*)$`)
 // added (or renumbered) a call to a contracted sink. A refutation there is a new unguarded sink call, not an
 // unstable obligation.
 func siblingCallSite(name string, expected map[string]bool) bool {
+	// an additional rewrite template in a function whose reviewed template is in the baseline
+	if i := strings.LastIndex(name, ".alt"); i > 0 && strings.Contains(name, ".bucket.") && expected[name[:i]] {
+		return true
+	}
 	m := callSiteRe.FindStringSubmatch(name)
 	if m == nil {
 		return false
